@@ -130,7 +130,8 @@ RootIntrinsic(e) ==
   LET es == Entries(e.link)
       shaped == Shape(e.link, e.rh, Layer, HiKey)
       ruleH == RuleHeight({es[i][1] : i \in DOMAIN es}, Layer, Bf)
-  IN (IF ~shaped THEN {V("C09", "persisted tree violates the shape invariants", e.h)} ELSE {})
+  IN (IF ~shaped THEN {V("C09", "persisted tree violates the shape invariants", e.h),
+                       V("C04", "persisted tree is not the canonical tree of its entries", e.h)} ELSE {})
      \cup (IF e.rs # Len(es) THEN {V("C09", "recorded size differs from reachable entries", e.h)} ELSE {})
      \cup (IF shaped /\ e.rh # ruleH THEN {V("C04", "persisted height differs from min(max layer, floor(log_bf(size-1)))", e.h)} ELSE {})
      \cup (IF shaped /\ e.rh = ruleH /\ e.link # Canon(es, Layer, ruleH) THEN {V("C04", "persisted tree is not the canonical tree of its entries", e.h)} ELSE {})
